@@ -222,16 +222,58 @@ PROPS = {
         "assumptions": [],
     },
     "C13": {
-        "unclaimed": "the Lean side of this property (regenerated slice-effect IR with a taint-soundness theorem, DESIGN.md §7 C13) is not built yet; the purity exploration suite exists (harness/purity.go) and found/guards the bcrypt defect, but exploration is not this task's technique",
         "suites": ["purity"],
-        "level": "exploration",
-        "technique": "Go harness: sentinel-buffer before/after comparison over full capacity, repeated and interleaved calls, result mutation; keys compared with the Lean model (which is a pure function by construction)",
-        "claim": "Exploration: every Key is called with password and salt passed as sub-slices (len < cap) of sentinel-filled buffers at all lengths around each scheme's truncation limits and with every option variant; the whole backing arrays are compared before/after; each call is repeated after the first result has been mutated over its full capacity, and earlier calls are replayed to detect cross-call aliasing. "
-                 "Determinism additionally follows from key-for-key agreement with the Lean model, a pure function. (The slice-effect IR proof planned in DESIGN.md is not built yet, so the level claimed is exploration.)",
-        "note": "No proof yet for this property: the planned regenerated slice-effect IR with a taint-soundness theorem is not implemented in this revision.",
+        "level": "proof",
+        "fail_kinds": ["argument-modified", "result-aliased", "nondeterministic", "slice-effect"],
+        "technique": "Lean 4: flow-insensitive points-to analysis decided by the kernel (`decide +kernel`) on the slice-effect IR of every Key regenerated from the current source with module-internal callees inlined (no store targets an array reachable from an argument or a package variable; every returned slice is rooted in memory allocated by the call) "
+                     "+ sentinel-buffer correspondence on Go; determinism by key-for-key agreement with the Lean model, a function of its arguments",
+        "claim": "Kernel-checked on the IR regenerated from the current source, for all ten Key functions and everything they call inside this module: under a flow-insensitive points-to over-approximation (every statement may run, any number of times, in any order) no store (x[i]=, copy, PutUintNN, Encode(dst,…), append into spare capacity, h.Sum(b), cipher.Encrypt(dst,…)) can target an array that may belong to an argument or to a package-level variable, "
+                 "and every returned slice is rooted only in arrays allocated during the call. The fixpoint is checked (`stable`), not assumed; statements the translator cannot classify become `.unknown`, which fails the obligation. "
+                 "Determinism: each Key's Lean model (Scheme.key) is a function of its arguments and agrees with the Go code key for key (suites kdf, purity); the only entropy consumer is sha1's random-rounds request (Gen.Facts.randImports). "
+                 "On Go: every Key called with password and salt as sub-slices (len < cap) of sentinel-filled buffers around each truncation limit, whole backing arrays compared before/after, calls repeated/interleaved, results mutated over full capacity.",
+        "note": "A property over programs: on a broken obligation the Lean driver names the offending statement (variable names from the regenerated table) and the purity suite looks for a concrete call. Trusted: gogen's slice-effect translator and its table of library calls (which arguments a stdlib/x-crypto call may write, whether its result is fresh); reflection-based hash.Marshal is treated as a library call (covered dynamically).",
         "rule": "purity: per scheme password lengths around the truncation limits (bcrypt 0,1,8,70..74,100,253..256; DES 0,1,7,8; …) × nil/explicit option variants × 2 salts; "
-                "arguments as sub-slices with 9/7 spare bytes; non-trivial/distinct = distinct (scheme, length, variant)",
-        "trusted": ["stdlib/x-crypto calls do not write their inputs (observed only)"],
+                "arguments as sub-slices with 9/7 spare bytes; the ten regenerated IR programs evaluated by the Lean driver (first offending statement); non-trivial/distinct = distinct (scheme, length, variant)",
+        "trusted": COMMON_TRUST + ["gogen slice-effect translator incl. its library-call table (trustedCalls)", "stdlib/x-crypto calls write only the destinations the table says"],
+        "assumptions": [],
+    },
+    "C08": {
+        "suites": ["race:conc", "cache"],
+        "level": "proof",
+        "fail_kinds": ["data-race", "concurrent-result-differs"],
+        "technique": "Lean 4 proof about an interleaving model of the type-cache/registry protocol (results isolated and no plain write to a published object, for every schedule) tied by protocol facts measured through the verif hook + Go race-detector exploration",
+        "claim": "Kernel-checked on the protocol model for ANY number of threads and ANY interleaving: every getTypeInfo call returns exactly its isolated result (reporting its own argument type) and no published object is ever written — given the two protocol facts (private copy returned; entries keyed by the dereferenced type) that are MEASURED on the real code on every run. "
+                 "Go side: N ∈ {2,8,32} goroutines × GOMAXPROCS ∈ {1,2,4,16} run random mixes of Check/NewHash/Params/Key/RegisterHash/Marshal/Unmarshal over all schemes and over shared and first-use struct types under the race detector; every result incl. error text is compared with a sequentially computed table.",
+        "note": "Partial: this is the property where the truth lives most in the runtime. The model's access footprints are a hand abstraction tied only by the measured facts and the race detector; sync.Map, reflect and stdlib internals are trusted. Until Props/C08.lean's interleaving theorems are in place the obligations are the sequential protocol theorems of C18.",
+        "rule": "conc (race build): 6 (quick) / 60 (thorough) rounds, each N goroutines × 30 operations drawn from ~100 operations (all schemes' Check ok/bad/malformed, dispatch, NewHash+Check, Params, Key; Marshal in T/*T/**T, Unmarshal ok/error cases, invalid-tag type; registry store/load) "
+                "plus first-use operations on a fresh struct type compared with a sibling type; cache: protocol facts measured; non-trivial/distinct = distinct rounds",
+        "trusted": COMMON_TRUST + ["Go memory model (DRF-SC), sync.Map, reflect, the race detector"],
+        "assumptions": [],
+    },
+    "C04": {
+        "suites": ["argon", "purego:argon"],
+        "level": "proof",
+        "technique": "Lean 4: executable code-shaped model that calls the indexAlpha/phi kernels regenerated from the Go source, compared key-for-key with an independent RFC 9106 reference written in Lean and with the real code on all three code paths",
+        "claim": "The Argon2 model (H0, H', block function, fill schedule, version rule, memory rounding) mirrors argon2crypto function by function and uses the reference-index kernel translated from the current source; an independent Lean reference written from RFC 9106 §3 (explicit reference set W, G via the permutation P on the 8×8 register matrix) agrees with it and with the Go code on every grid point. "
+                 "Three code paths of the real block function — amd64 assembly with SSE4.1, assembly with SSE4.1 switched off (verif hook), and the portable Go path (-tags purego build of the harness) — give identical keys and identical block outputs on random 1 KiB triples incl. aliased out==in.",
+        "note": "Partial: model = RFC reference is established by execution on the grid, not yet by a Lean theorem for all parameters (the index kernel's reference-set theorem is C09's); the SSE2/SSE4.1 assembly is not modelled at all — its equality with the portable path is sampled. BLAKE2b (x/crypto) trusted.",
+        "rule": "argon: 60 (quick) / 1200 (thorough) parameter tuples over 3 variants × versions {0x10,0x13} × lanes 1..8 and 255 × memory 8p..33p incl. non-multiples of 4p × time 1..4 × password 0..200 × salt 8..64 × tag 4..128 — Go (each code path) vs Lean model vs Lean RFC reference; "
+                "H' for 16 output lengths; 300 / 20000 random block triples × {xor, overwrite} × 5 aliasing patterns × code paths; 3000 / 100000 indexAlpha tuples incl. the reference-set property checked directly; purego: the same suite on the portable build; "
+                "non-trivial/distinct = distinct (variant, version, lanes, memory, time)",
+        "trusted": COMMON_TRUST + ["x/crypto BLAKE2b", "the amd64 assembly is executed and compared, never modelled"],
+        "assumptions": [],
+    },
+    "C09": {
+        "unclaimed": "the schedule-independence theorems (Props/C09.lean) are still being proved in this revision; the race-detector suite argonsched exists but exploration alone is not this task's technique",
+        "suites": ["purego-race:argonsched", "argon"],
+        "level": "proof",
+        "fail_kinds": ["data-race", "schedule-dependent", "goroutine-leak", "reference-set"],
+        "technique": "Lean 4 proof (reference-set theorem about the index kernel regenerated from source; schedule independence of tasks with disjoint write regions, for every schedule) + race-detector exploration of the portable build under perturbed scheduling",
+        "claim": "Kernel-checked: for tasks that write only their own region and read only it and a frozen area, EVERY schedule leaves each region exactly as the task's solo run (so the result is schedule-independent); the reference-set theorem for the regenerated indexAlpha gives the locality premise (a cross-lane reference never points into the slice being written; a same-lane reference is strictly earlier). "
+                 "Go side: lanes 2..8 × 3 variants × 2 versions × memory {8p, 8p+3, 32p} × time 1..3 × GOMAXPROCS {1,2,3,16} with competing goroutines, on the purego build under the race detector; keys equal the sequential Lean model; goroutine count restored.",
+        "note": "Partial: that the Go statements implement the modelled barrier (WaitGroup Add/Done/Wait placement, goroutine start) is trusted runtime behaviour tied by the race detector and the goroutine count; until Props/C09.lean lands the kernel-checked part is limited (see obligations).",
+        "rule": "argonsched (purego, race): 12 (quick) / 300 (thorough) parameter tuples × 5 GOMAXPROCS settings with 4 yielding noise goroutines; key equal across settings and equal to the sequential model; argon: indexAlpha reference-set property on 3000 / 100000 tuples; non-trivial/distinct = distinct parameter tuples",
+        "trusted": COMMON_TRUST + ["sync.WaitGroup / goroutine semantics", "Go memory model"],
         "assumptions": [],
     },
 }
